@@ -16,7 +16,7 @@ EXPLANATION = (
     'of this namespace, that entry), LocalInsert only under origin Local; (R4) unsubscribe retains exactly the senders that'
     ' are not the same channel and the per-subscriber delivery future, evaluated with awaits driven to completion, keeps a '
     'subscriber whose send of this event succeeded (a closed one may be dropped), the list being rebuilt from the previous '
-    'senders. NOT decided: order of delivery across subscribers under back-pressure.'
+    'senders. (R5) the meaning of the policy the flag is computed by: DownloadPolicy::matches and FilterKind::matches evaluated (shared with C15.R1). NOT decided: order of delivery across subscribers under back-pressure.'
 )
 ASSUMPTIONS = ["async_channel delivers a sent event exactly once to its receiver", "generic callbacks bound to the closures of the unique production call"]
 
@@ -276,8 +276,26 @@ def r4(ctx):
     ctx.floor("C12.R4", 4)
 
 
+def r5(ctx):
+    """what `should_download` is computed by: the policy's meaning (shared with C15.R1) - the flag on a RemoteInsert event is
+    DownloadPolicy::matches(policy, entry) by R3, so a wrong `matches` is a wrong event"""
+    from . import C15
+    sub = type(ctx)(ctx.prop, ctx.tier, ctx.facts, ctx.cfg)
+    C15.r1(sub)
+    for o in sub.obligations:
+        o = dict(o)
+        o["key"] = o["key"].replace("C15.R1", "C12.R5")
+        o["rule"] = "C12.R5"
+        ctx.obligations.append(o)
+        if o["status"] != "holds":
+            ctx.violations.append(o)
+    ctx.analysed_bodies |= sub.analysed_bodies
+    ctx.floor("C12.R5", 3)
+
+
 def run(ctx):
     ctx.run_rule("C12.R1", r1)
     ctx.run_rule("C12.R2", r2)
     ctx.run_rule("C12.R3", r3)
     ctx.run_rule("C12.R4", r4)
+    ctx.run_rule("C12.R5", r5)
